@@ -43,7 +43,7 @@ CHECKS = {
                 note="Trusted: vf/ref.py. States are restored by assigning the ranks table; validated by replaying BFS-tree paths on fresh objects (traces_validated_against_impl)."),
     "C18": dict(cat="exploration", tech=E_IN, ref="DESIGN.md 4/C18",
                 text="All rank tables -> {0..3} over 1 and 2 atoms and a stated family over 3 atoms (thorough: all 6561 tables -> {0..2}) x every formula / conditional / proper atom subset / layer numbering of the families: formula_rank, conditional_acceptance, marginalize, both conditionalisations, ranks2tpo/tpo2ranks against the five laws evaluated by brute force; custom and System Z objects.",
-                note="Signatures of 1-3 atoms only."),
+                note="Signatures of 1-4 atoms (over 4 atoms a fixed family of tables only)."),
     "C09": dict(cat="exploration", tech="bounded-exhaustive computation of complete inference relations over all 16x16 truth functions, then every postulate instance evaluated on the table (no oracle)", ref="DESIGN.md 4/C09",
                 text="Per base and operator/back-end/mode the complete inference relation over the 256 pairs of truth functions of two atoms (+128 queries in secondary syntactic forms) is computed and every instance of REF, SC, LLE, RW, AND, OR, CM, CUT (16^3 tuples), (Bottom|A) only for unsatisfiable A, and RM for Z/lex is checked; direct inference on two-atom scopes, three-atom structure representatives and the shipped corpora up to 20 atoms (thorough 60).",
                 note="Postulate instances range over formulas of two atoms only; compares the implementation with itself."),
